@@ -36,6 +36,17 @@ UNITS = [
                  "of native/c05.py, the small recorded common meta-models (~1 700 / ~3 450 meta-models x 8 targets); a "
                  "generator may report errors but must not raise",
            args={"stride": 4}, thorough_args={"stride": 1}, timeout_s=3000),
+    # C11-C14 beyond the facet emission (contracts/schemas.py): what validators do with the generated schemas is not
+    # decidable by a contract on the generator; this harness executes the generated artefacts on a list of examples.
+    Native("generated JSON schema and XSD against documents written by the generated Python SDK",
+           ["C11", "C12", "C13", "C14"], "native.c11:bounded", kind="examples",
+           bound="one meta-model (enumeration; constrained primitives with length and pattern constraints and a descendant "
+                 "primitive tightening both bounds; a byte-array primitive with both bounds; an abstract parent with a "
+                 "length invariant and two concrete children, one tightening the inherited property; optional list with "
+                 "size bounds; all primitive types): both schemas must be valid schemas with resolving $refs; 10 valid "
+                 "instances (incl. values at every bound, astral characters) must validate; 14 instances with one "
+                 "constraint broken and 13 structurally wrong documents must be rejected; judges: jsonschema "
+                 "Draft 2019-09 and xmlschema", args={}, timeout_s=900),
     Native("every small structured flow against its linearization", ["C26"], "native.c26:bounded", kind="bounded",
            bound="every flow of <= 4 (thorough: 5) nodes, nesting <= 3, over Command / Yield / IfTrue / IfFalse (with, "
                  "without and with empty else) / For (with, without init) / While (bodies may be empty) x all 2^5 "
